@@ -3,10 +3,13 @@
 // with scripted listeners.  A listener is a closure that, when the real code invokes it,
 // logs the invocation and then interprets its *program* (a list of re-entrant actions taken
 // from the op data): subscribe, unsubscribe (self / other / by callback), clear, publish,
-// global publish.  The goroutine executing a case is the owner of every centre of that case:
-// it is the one that drains the centres' event channels (ODrain).  A watchdog turns a case
-// that stops making progress (lock cycle, send on a full channel) into the observable
-// VDeadlock instead of hanging the harness; the stuck goroutine is abandoned.
+// global publish, stop the run service.  The goroutine executing a case (the driver) owns the
+// centres 0-3, 10, 11 of that case: it is the one that drains their event channels (ODrain).
+// Centres 4 and 5 are the EventCenter of a real runservice.StandardRunService each (svc.go):
+// they are owned by the service's loop goroutine from Start() until that loop has ended, and
+// every listener invocation records the goroutine it runs on.  A watchdog turns a case that
+// stops making progress (lock cycle, send on a full channel) into the observable VDeadlock
+// instead of hanging the harness; the stuck goroutine is abandoned.
 //
 // The trace written as the case's obs is the flat list of events of Coq's C17.Model.ev.
 package c17
@@ -35,7 +38,7 @@ const (
 	budget     = 300  // Model.BUDGET: nor do listeners invoked after this many trace events
 	repMax     = 1200 // Model.REPMAX
 	drainMax   = 50
-	nLocal     = 4                      // Model.local_centres
+	nLocal     = 6                      // Model.local_centres: 0-3 driver, 4-5 run services
 	stallAfter = 400 * time.Millisecond // without progress AND with the case goroutine parked
 )
 
@@ -44,6 +47,7 @@ var runNonce = time.Now().UnixNano() // the global centre is a process-wide sing
 type lst struct {
 	tok        int64
 	c, n       int64
+	nbound     int
 	realID     uint64
 	code, recv int64
 	pid        int64
@@ -64,8 +68,14 @@ type world struct {
 	names     map[string]int64
 	nextTok   int64
 	npub      int64
-	pubStack  []int64
+	stack     []frame // what the running goroutine is inside of (innermost last)
 	depth     int
+
+	svcs      map[int64]*service
+	driverGid string
+	starting  *service // the service whose loop goroutine id is not known yet
+	closing   bool     // the case is over: nothing is logged or interpreted any more
+	tags      map[string]bool
 
 	mu        sync.Mutex
 	log       []any
@@ -78,7 +88,9 @@ func newWorld(caseNo int) *world {
 		caseNo:    caseNo,
 		locals:    map[int64]*event.LocalEventCenter{},
 		lights:    map[int64]*light.EventCenter{},
-		chanMode:  map[int64]bool{0: false, 1: true, 2: true, 3: true},
+		chanMode:  map[int64]bool{0: false, 1: true, 2: true, 3: true, 4: true, 5: true},
+		svcs:      map[int64]*service{4: {c: 4}, 5: {c: 5}},
+		tags:      map[string]bool{},
 		progs:     map[int64][]hx.T{},
 		listeners: map[int64]*lst{},
 		recvs:     map[int64]*recvObj{},
@@ -86,7 +98,7 @@ func newWorld(caseNo int) *world {
 		nextTok:   1,
 		npub:      1,
 	}
-	for c := int64(0); c <= nLocal-1; c++ {
+	for c := int64(0); c <= 3; c++ {
 		w.locals[c] = event.NewLocalEventCenter(w.chanMode[c])
 	}
 	for c := int64(10); c <= 11; c++ {
@@ -97,13 +109,43 @@ func newWorld(caseNo int) *world {
 
 func (w *world) name(n int64) string {
 	s := fmt.Sprintf("c17-%d-%d-e%d", runNonce, w.caseNo, n)
+	w.mu.Lock()
 	w.names[s] = n
+	w.mu.Unlock()
 	return s
+}
+
+// nameTok: the token of an event name seen in a received event (-1: not one of ours)
+func (w *world) nameTok(s string) int64 {
+	w.mu.Lock()
+	defer w.mu.Unlock()
+	if n, ok := w.names[s]; ok {
+		return n
+	}
+	return -1
+}
+
+func (w *world) tag(t string) {
+	w.mu.Lock()
+	w.tags[t] = true
+	w.mu.Unlock()
+}
+
+// lc returns local centre c; the run service of centre 4 / 5 is created on first use
+func (w *world) lc(c int64) *event.LocalEventCenter {
+	if isSvc(c) {
+		return w.service(c).svc.GetEventCenter()
+	}
+	return w.locals[c]
 }
 
 func (w *world) emit(e any) {
 	atomic.AddInt64(&w.beat, 1)
 	w.mu.Lock()
+	if w.closing {
+		w.mu.Unlock()
+		return
+	}
 	if w.abandoned {
 		w.mu.Unlock()
 		runtime.Goexit() // the watchdog gave up on this goroutine; stop touching anything
@@ -146,17 +188,32 @@ func same(a, b []int64) bool {
 	return true
 }
 
+// frame: the running goroutine is inside a publication issued by the driver code (pub) or
+// inside a listener (otherwise)
+type frame struct {
+	pub bool
+	p   int64
+}
+
 // onInvoke is what every scripted callback does.
 func (w *world) onInvoke(l *lst, args []interface{}) {
-	if l == nil {
-		return // dummy callbacks used only for their code pointer
+	if l == nil || w.closing {
+		return // dummy callbacks used only for their code pointer / case is over
 	}
-	p := int64(0)
-	if len(w.pubStack) > 0 {
-		p = w.pubStack[len(w.pubStack)-1]
-	}
+	// a panic of the code under test below a listener (it would kill the process: the event
+	// selector has no recover) ends the case with the "call did not return" event
+	defer w.recovered()
+	g := w.gtok()
 	entry := ints(args)
-	w.emit(hx.C("VInv", p, l.tok, entry))
+	p := int64(0)
+	if n := len(w.stack); n > 0 && w.stack[n-1].pub {
+		p = w.stack[n-1].p
+	} else {
+		// not called from a Publish / DoEvent of the driver code
+		p = w.unsolicited(l, entry)
+	}
+	w.emit(hx.C("VInv", p, l.tok, entry, g))
+	w.stack = append(w.stack, frame{})
 	w.depth++
 	if w.depth <= depthMax && len(w.log) < budget {
 		for _, a := range w.progs[l.pid] { // program looked up at invocation time
@@ -164,7 +221,20 @@ func (w *world) onInvoke(l *lst, args []interface{}) {
 		}
 	}
 	w.depth--
+	w.stack = w.stack[:len(w.stack)-1]
 	w.emit(hx.C("VRet", l.tok, same(entry, ints(args))))
+}
+
+func (w *world) recovered() {
+	if r := recover(); r != nil {
+		w.mu.Lock()
+		if !w.closing && !w.abandoned {
+			w.log = append(w.log, "VDeadlock")
+			w.tags["panic"] = true
+		}
+		w.closing = true
+		w.mu.Unlock()
+	}
 }
 
 // Four function literals = four code pointers (light.Subscribe de-duplicates by code pointer).
@@ -191,6 +261,8 @@ func (w *world) recv(k int64) *recvObj {
 }
 
 func isLocal(c int64) bool { return c >= 0 && c <= nLocal-1 }
+func isDrv(c int64) bool   { return c >= 0 && c <= 3 }
+func isSvc(c int64) bool   { return c >= 4 && c <= 5 }
 func isLight(c int64) bool { return c >= 10 && c <= 11 }
 
 // listeners of (c, n) that light's FindId / FindIdWithReceiver would match (Model.cb_match)
@@ -215,7 +287,7 @@ func (w *world) cbMatches(c, n, how, code int64) []*lst {
 }
 
 func (w *world) unsub(c, n, tok int64) {
-	if !isLocal(c) && !isLight(c) {
+	if !w.mine(c) || (!isLocal(c) && !isLight(c)) {
 		w.emit("VNop")
 		return
 	}
@@ -226,7 +298,7 @@ func (w *world) unsub(c, n, tok int64) {
 		id = l.realID
 	}
 	if isLocal(c) {
-		w.locals[c].Unsubscribe(w.name(n), id)
+		w.lc(c).Unsubscribe(w.name(n), id)
 	} else {
 		w.lights[c].UnsubscribeById(w.name(n), id)
 	}
@@ -239,9 +311,9 @@ func (w *world) dispatchLogged(c, n int64, args []int64, f func()) {
 	p := w.npub
 	w.npub++
 	w.emit(hx.C("VBegin", p, c, n, args))
-	w.pubStack = append(w.pubStack, p)
+	w.stack = append(w.stack, frame{true, p})
 	f()
-	w.pubStack = w.pubStack[:len(w.pubStack)-1]
+	w.stack = w.stack[:len(w.stack)-1]
 	w.emit(hx.C("VEnd", p))
 }
 
@@ -261,21 +333,21 @@ func (w *world) act(self *lst, a hx.T) {
 	switch a.Name {
 	case "ASub":
 		c, n, how, code, bound, pid := a.Int(0), a.Int(1), a.Int(2), a.Int(3), a.Ints(4), a.Int(5)
-		if !isLocal(c) && !isLight(c) {
+		if !w.mine(c) || (!isLocal(c) && !isLight(c)) {
 			w.emit("VNop")
 			return
 		}
-		l := &lst{c: c, n: n, code: ((code % 4) + 4) % 4, pid: pid}
+		l := &lst{c: c, n: n, code: ((code % 4) + 4) % 4, pid: pid, nbound: len(bound)}
 		cb := w.mkCB(code, l)
 		b := ifaces(bound, 4)
 		var id uint64
 		g := false
 		if isLocal(c) {
 			if how == 0 {
-				id = w.locals[c].Subscribe(w.name(n), cb, b...)
+				id = w.lc(c).Subscribe(w.name(n), cb, b...)
 			} else {
 				g = true
-				id = w.locals[c].GSubscribe(w.name(n), cb, b...)
+				id = w.lc(c).GSubscribe(w.name(n), cb, b...)
 			}
 		} else {
 			switch {
@@ -307,7 +379,7 @@ func (w *world) act(self *lst, a hx.T) {
 		w.unsub(self.c, self.n, self.tok)
 	case "AUnsubCb":
 		c, n, how, code := a.Int(0), a.Int(1), a.Int(2), a.Int(3)
-		if !isLight(c) {
+		if !w.mine(c) || !isLight(c) {
 			w.emit("VNop")
 			return
 		}
@@ -333,13 +405,13 @@ func (w *world) act(self *lst, a hx.T) {
 		}
 	case "AClear":
 		c := a.Int(0)
-		if !isLocal(c) && !isLight(c) {
+		if !w.mine(c) || (!isLocal(c) && !isLight(c)) {
 			w.emit("VNop")
 			return
 		}
 		w.emit(hx.C("VClear", c))
 		if isLocal(c) {
-			w.locals[c].Clear()
+			w.lc(c).Clear()
 		} else {
 			w.lights[c].Clear()
 		}
@@ -351,26 +423,41 @@ func (w *world) act(self *lst, a hx.T) {
 	case "APub":
 		c, n, args := a.Int(0), a.Int(1), a.Ints(2)
 		switch {
-		case isLight(c):
+		case isLight(c) && w.mine(c):
 			w.dispatchLogged(c, n, args, func() { w.lights[c].Publish(w.name(n), ifaces(args, 0)...) })
 		case isLocal(c) && w.chanMode[c]:
+			// a send: from any goroutine
 			w.emit(hx.C("VEnq", c, n, args))
-			w.locals[c].Publish(w.name(n), ifaces(args, 0)...) // blocks when the queue is full
-		case isLocal(c):
-			w.dispatchLogged(c, n, args, func() { w.locals[c].Publish(w.name(n), ifaces(args, 0)...) })
+			if w.anyStopped() {
+				w.tag("publish-after-stop")
+			}
+			w.lc(c).Publish(w.name(n), ifaces(args, 0)...) // blocks when the queue is full
+			if s := w.svcOf(c); s != nil {
+				s.enq++
+			}
+		case isLocal(c) && w.mine(c):
+			w.dispatchLogged(c, n, args, func() { w.lc(c).Publish(w.name(n), ifaces(args, 0)...) })
 		default:
 			w.emit("VNop")
 		}
 	case "AGPub":
 		n, args, k := a.Int(0), a.Ints(1), clamp(a.Int(2), 0, repMax)
+		before := w.qlens()
 		for i := int64(0); i < k; i++ {
 			event.GetGlobalEC().Publish(w.name(n), ifaces(args, 0)...)
 		}
-		qlens := []int64{}
-		for c := int64(0); c <= nLocal-1; c++ {
-			qlens = append(qlens, int64(len(w.locals[c].GetChanEvent())))
+		qlens := w.qlens()
+		for c, s := range w.svcs {
+			if s.svc != nil {
+				s.enq += qlens[c] - before[c]
+			}
+		}
+		if w.anyStopped() {
+			w.tag("publish-after-stop")
 		}
 		w.emit(hx.C("VGPub", n, args, k, qlens))
+	case "AStop":
+		w.stop(a.Int(0))
 	default:
 		panic("c17: unknown action " + a.Name)
 	}
@@ -385,7 +472,7 @@ func (w *world) op(o hx.T) {
 		w.act(nil, o.Term(0))
 	case "ODrain":
 		c, k := o.Int(0), clamp(o.Int(1), 0, drainMax)
-		if !isLocal(c) {
+		if !isDrv(c) {
 			w.emit("VNop")
 			return
 		}
@@ -393,10 +480,7 @@ func (w *world) op(o hx.T) {
 		for i := int64(0); i < k; i++ {
 			select {
 			case e := <-lc.GetChanEvent():
-				n, ok := w.names[e.EventName]
-				if !ok {
-					n = -1
-				}
+				n := w.nameTok(e.EventName)
 				args := ints(e.Args)
 				w.emit(hx.C("VDeq", c, n, args))
 				w.dispatchLogged(c, n, args, func() { lc.DoEvent(e) })
@@ -406,7 +490,7 @@ func (w *world) op(o hx.T) {
 		}
 	case "ODiscard":
 		c, k := o.Int(0), clamp(o.Int(1), 0, repMax)
-		if !isLocal(c) {
+		if !isDrv(c) {
 			w.emit("VNop")
 			return
 		}
@@ -421,10 +505,7 @@ func (w *world) op(o hx.T) {
 		for i := int64(0); i < k; i++ {
 			select {
 			case e := <-w.locals[c].GetChanEvent():
-				n, ok := w.names[e.EventName]
-				if !ok {
-					n = -1
-				}
+				n := w.nameTok(e.EventName)
 				a := ints(e.Args)
 				if m := len(runs); m > 0 && runs[m-1].n == n && same(runs[m-1].args, a) {
 					runs[m-1].k++
@@ -442,12 +523,28 @@ func (w *world) op(o hx.T) {
 		w.emit(hx.C("VDrop", c, items))
 	case "OSetChan":
 		c, b := o.Int(0), o.Bool(1)
-		if !isLocal(c) {
+		if !isDrv(c) {
 			w.emit("VNop")
 			return
 		}
 		w.locals[c].SetLocalUseChan(b)
 		w.chanMode[c] = b
+	case "OStart":
+		w.start(o.Int(0))
+	case "ORun":
+		c := o.Int(0)
+		if s := w.svcOf(c); s != nil && s.alive {
+			w.runLoop(s)
+		} else {
+			w.emit("VNop")
+		}
+	case "OOwn":
+		c, a := o.Int(0), o.Term(1)
+		if s := w.svcOf(c); s != nil && s.alive {
+			s.ctl.do(func() { w.act(nil, a) })
+		} else {
+			w.emit("VNop")
+		}
 	default:
 		panic("c17: unknown op " + o.Name)
 	}
@@ -495,13 +592,15 @@ func parked(id string) bool {
 }
 
 // Exec runs one history on fresh real centres under the watchdog.
-func Exec(caseNo int, ops []hx.T) []any {
+func Exec(caseNo int, ops []hx.T) ([]any, []string) {
 	w := newWorld(caseNo)
 	done := make(chan struct{})
 	gid := make(chan string, 1)
 	go func() {
 		defer close(done)
-		gid <- goid()
+		defer w.recovered()
+		w.driverGid = goid()
+		gid <- w.driverGid
 		for _, o := range ops {
 			w.op(o)
 		}
@@ -513,13 +612,18 @@ func Exec(caseNo int, ops []hx.T) []any {
 	for {
 		select {
 		case <-done:
-			return w.log
+			w.mu.Lock()
+			w.closing = true
+			out := w.log
+			w.mu.Unlock()
+			w.shutdown()
+			return out, w.tagList()
 		case <-tick.C:
 			b := atomic.LoadInt64(&w.beat)
 			if b != last {
 				last, lastChange = b, time.Now()
 			} else if time.Since(lastChange) > stallAfter {
-				if !parked(id) {
+				if !parked(id) || w.loopRunning() {
 					lastChange = time.Now()
 					continue
 				}
@@ -527,7 +631,8 @@ func Exec(caseNo int, ops []hx.T) []any {
 				w.abandoned = true
 				out := append(append([]any{}, w.log...), "VDeadlock")
 				w.mu.Unlock()
-				return out
+				w.unblock()
+				return out, w.tagList()
 			}
 		}
 	}
@@ -535,5 +640,6 @@ func Exec(caseNo int, ops []hx.T) []any {
 
 func silence() {
 	logger.SetLogLevel(logrus.PanicLevel)
+	logger.GetLogProxy("exception").SetLogLevel(logrus.PanicLevel) // sche.Post on a stopped scheduler
 	log.SetOutput(io.Discard)
 }
